@@ -1122,6 +1122,10 @@ def update_detector_states(
         return new_state
 
     for d in to_update:
+        if d.num_time_steps_recorded == 0:
+            # A schedule without any active step leaves an empty state array; tracing the update would
+            # index that empty array. Such a detector never records, so its state stays untouched.
+            continue
         # E already lives at the detector's integer time step; H lives at half steps, so exact
         # detectors time-center H as (H_prev + H) / 2 on their region inside the branch.
         state[d.name] = jax.lax.cond(
